@@ -52,7 +52,7 @@ class Expander:
         if i in self.cache:
             return self.cache[i][1]
         self.budget -= 1
-        if self.budget < 0:
+        if self.budget < 0 or (self.budget % 2000 == 0 and getattr(self, 'deadline', None) and __import__('time').time() > self.deadline):
             raise OverflowError('finite expansion too large')
         if z3.is_quantifier(t):
             r = self._quant(t)
@@ -229,12 +229,14 @@ def closure_terms(terms, sorts, universe_ids):
     return list(out.values())
 
 
-def refute(pc, neg, extra_str=1, extra_ref=2, timeout_ms=3000, str_consts=()):
-    """-> (z3 result, model or None, info string)"""
+def refute(pc, neg, extra_str=3, extra_ref=6, timeout_ms=3000, str_consts=()):
+    """-> (z3 result, model or None, info string).  Universe = the string literals, '' and None plus `extra_str`
+    anonymous strings; null plus `extra_ref` anonymous references.  Every other constant or ground term of these
+    sorts is constrained to equal one of them."""
+    import time as _t
     formulas = list(pc) + [neg]
-    found = collect_consts(formulas, [Str, Ref])
-    ustr = {c.get_id(): c for c in found[Str] + [STR_NONE, STR_EMPTY] + list(str_consts)}
-    uref = {c.get_id(): c for c in found[Ref] + [NULL]}
+    ustr = {c.get_id(): c for c in [STR_NONE, STR_EMPTY] + list(str_consts)}
+    uref = {NULL.get_id(): NULL}
     for k in range(extra_str):
         c = z3.Const(f'ustr{k}', Str)
         ustr[c.get_id()] = c
@@ -243,6 +245,7 @@ def refute(pc, neg, extra_str=1, extra_ref=2, timeout_ms=3000, str_consts=()):
         uref[c.get_id()] = c
     universe = {Str: list(ustr.values()), Ref: list(uref.values())}
     ex = Expander(universe)
+    ex.deadline = _t.time() + 20
     try:
         expanded = [ex.tr(f) for f in formulas]
     except OverflowError:
@@ -251,6 +254,14 @@ def refute(pc, neg, extra_str=1, extra_ref=2, timeout_ms=3000, str_consts=()):
     s.set('timeout', timeout_ms)
     s.add(*expanded)
     s.add(*ex.side)
+    s.add(z3.Distinct(*universe[Str]))
+    s.add(z3.Distinct(*universe[Ref]))
+    found = collect_consts(expanded + ex.side, [Str, Ref])
+    for srt, u in universe.items():
+        ids = {c.get_id() for c in u}
+        for c in found[srt]:
+            if c.get_id() not in ids:
+                s.add(z3.Or([c == x for x in u]))
     for t in closure_terms(expanded, [Str, Ref], None):
         u = universe[Str] if t.sort() == Str else universe[Ref]
         s.add(z3.Or([t == c for c in u]))
